@@ -15,11 +15,22 @@ theorem FS.set_set (fs : FS) (q : Path) (a b : Option File) : (fs.set q a).set q
 /-- no file is left truncated (every 'wb' open was followed by a complete write) -/
 def FSwf (fs : FS) : Prop := ∀ p, fs p ≠ some .truncated
 
-/-- the live image is usable: its proxy still resolves — the source file is intact, has the layout the proxy
-    was built with, and holds the data the image had when it was loaded; a cache that owns its memory holds
-    the same data -/
+/-- the data object still reads a file (proxy, or a view of the source memmap) -/
+def Arr.backed : Arr → Bool
+  | .owned _ _ => false
+  | _ => true
+
+def Img.backed (im : Img) : Bool := im.arr.backed
+
+/-- the live image is usable: its data object still resolves — for a proxy / a view of the source memmap the source
+    file is intact, has the layout the proxy was built with, and holds the data the image had when it was loaded; an
+    array that owns its memory holds those data; a cache that owns its memory holds the same data; a cache that
+    aliases the memmap exists only for a file-backed image -/
 def ImgOk (fs : FS) (im : Img) : Prop :=
-  readLayout fs im.src im.srcDt im.srcBe im.srcScaled = some im.data ∧ (∀ d w, im.cache = .owned d w → d = im.data)
+  (im.backed = true → readLayout fs im.src im.srcDt im.srcBe im.srcScaled = some im.data) ∧
+  (∀ d fl, im.arr = .owned d fl → d = im.data) ∧
+  (∀ d w, im.cache = .owned d w → d = im.data) ∧
+  (∀ w, im.cache = .alias w → im.backed = true)
 
 /-- well-formed state -/
 def WF (s : St) : Prop := FSwf s.fs ∧ ∀ im, s.img = some im → ImgOk s.fs im
@@ -32,7 +43,7 @@ def savedContent (im : Img) (q : Path) : Content :=
 /-- THE GUARD (open finding): a save onto the live image's own source path must keep the on-disk layout
     (dtype and scaling) the proxy was built with -/
 def layoutKept (im : Img) (q : Path) : Bool :=
-  q != im.src || ((outHeader im q).1 == im.srcDt && (outHeader im q).2.2.1 == im.srcBe && outScaled im q == im.srcScaled)
+  !im.backed || q != im.src || ((outHeader im q).1 == im.srcDt && (outHeader im q).2.2.1 == im.srcBe && outScaled im q == im.srcScaled)
 
 def allowed (s : St) : Op → Bool
   | .save q => match s.img with
@@ -54,23 +65,62 @@ theorem readLayout_set_truncated (fs : FS) (q : Path) (dt : DT) (be sc : Bool) :
     readLayout (fs.set q (some .truncated)) q dt be sc = none := by
   simp [readLayout, FS.set_same]
 
-theorem materialise_ok {fs : FS} {im : Img} (h : ImgOk fs im) :
-    materialise fs im = some (if im.mapped then .ref im.src im.srcDt im.srcBe im.srcScaled else .copy im.data) := by
-  unfold materialise
-  rw [h.1]
-  by_cases hm : im.mapped = true <;> simp [hm]
+/-- what `np.asanyarray(img.dataobj)` is for a usable image -/
+def Img.matOf (im : Img) : Mat :=
+  match im.arr with
+  | .owned d _ => .copy d
+  | .view inst => .ref im.src im.srcDt im.srcBe im.srcScaled inst
+  | .proxy => if im.mapped then .ref im.src im.srcDt im.srcBe im.srcScaled true else .copy im.data
 
-theorem deref_materialised {fs : FS} {im : Img} (h : ImgOk fs im) :
-    deref fs (if im.mapped then Mat.ref im.src im.srcDt im.srcBe im.srcScaled else Mat.copy im.data) = some im.data := by
-  by_cases hm : im.mapped = true
-  · simp [hm, deref, h.1]
-  · simp [hm, deref]
+/-- the array handed out reads the source file: a memmap or a view of one -/
+def Img.fileMapped (im : Img) : Bool :=
+  match im.arr with
+  | .owned _ _ => false
+  | .view _ => true
+  | .proxy => im.mapped
+
+theorem materialise_ok {fs : FS} {im : Img} (h : ImgOk fs im) : materialise fs im = some im.matOf := by
+  unfold materialise Img.matOf
+  cases ha : im.arr with
+  | owned d fl => rfl
+  | view inst => rfl
+  | proxy =>
+      have hb : im.backed = true := by simp [Img.backed, Arr.backed, ha]
+      simp only [h.1 hb]
+      by_cases hm : im.mapped = true <;> simp [hm]
+
+theorem deref_materialised {fs : FS} {im : Img} (h : ImgOk fs im) : deref fs im.matOf = some im.data := by
+  unfold Img.matOf
+  cases ha : im.arr with
+  | owned d fl => simp [deref, h.2.1 d fl ha]
+  | view inst =>
+      have hb : im.backed = true := by simp [Img.backed, Arr.backed, ha]
+      simp [deref, h.1 hb]
+  | proxy =>
+      have hb : im.backed = true := by simp [Img.backed, Arr.backed, ha]
+      by_cases hm : im.mapped = true
+      · simp [hm, deref, h.1 hb]
+      · simp [hm, deref]
 
 theorem materialise_deref {fs : FS} {im : Img} (h : ImgOk fs im) :
     (materialise fs im).bind (deref fs) = some im.data := by
   rw [materialise_ok h]
   simp only [Option.bind_some]
   exact deref_materialised h
+
+/-- the shape of `matOf`: a copy of the image data, or a reference to the source with the proxy's layout -/
+theorem matOf_cases (im : Img) (fs : FS) (h : ImgOk fs im) :
+    (im.matOf = .copy im.data ∧ im.fileMapped = false) ∨
+    (∃ inst, im.matOf = .ref im.src im.srcDt im.srcBe im.srcScaled inst ∧ im.fileMapped = true ∧ im.backed = true ∧
+      (im.arr = .proxy → inst = true) ∧ (∀ i, im.arr = .view i → inst = i)) := by
+  unfold Img.matOf Img.fileMapped Img.backed Arr.backed
+  cases ha : im.arr with
+  | owned d fl => left; simp [h.2.1 d fl ha]
+  | view inst => right; exact ⟨inst, rfl, rfl, rfl, fun h => by simp at h, fun i hi => by simp at hi; exact hi⟩
+  | proxy =>
+      by_cases hm : im.mapped = true
+      · right; exact ⟨true, by simp [hm], hm, rfl, fun _ => rfl, fun i hi => by simp at hi⟩
+      · left; simp [hm]
 
 /-! ### `update_header` -/
 
@@ -98,33 +148,67 @@ theorem outAff_eq (im : Img) (q : Path) : outAff im q = im.aff := by
     have := reconcile_best_close closeId (fun a => by simp [closeId]) hc im.aff (outHeader im q).2.2.2
     exact ((closeId_iff _ _).1 this).symm
 
-/-! ### `to_file_map` — current logic -/
+/-! ### `to_file_map` under the three guards -/
 
 theorem writeTo_cur {fs : FS} {im : Img} (h : ImgOk fs im) (q : Path) :
-    writeTo false fs im q = (.saved (savedContent im q), fs.set q (some (.intact (savedContent im q)))) := by
+    writeTo .base fs im q = (.saved (savedContent im q), fs.set q (some (.intact (savedContent im q)))) := by
   unfold writeTo
   rw [materialise_ok h]
-  by_cases hm : im.mapped = true
-  · simp [hm, deref, h.1, FS.set_set, savedContent, outAff_eq]
+  have hd := deref_materialised h
+  rcases matOf_cases im fs h with ⟨hm, _⟩ | ⟨inst, hm, _, _, _⟩
   · simp [hm, deref, FS.set_set, savedContent, outAff_eq]
+  · rw [hm] at hd
+    simp only [deref] at hd
+    simp [hm, Guard.copies, deref, hd, FS.set_set, savedContent, outAff_eq]
 
-/-- original logic: identical to the current one unless the target is the mapped source itself -/
-theorem writeTo_orig_off_source {fs : FS} {im : Img} (h : ImgOk fs im) {q : Path} (hq : q ≠ im.src) :
-    writeTo true fs im q = writeTo false fs im q := by
+/-- any guard: identical to the current logic unless the array is file-backed, NOT copied by the guard, and the
+    target is the mapped source itself -/
+theorem writeTo_guard_eq {fs : FS} {im : Img} (h : ImgOk fs im) (g : Guard) {q : Path}
+    (hg : im.fileMapped = false ∨ q ≠ im.src ∨
+      ∃ inst, im.matOf = .ref im.src im.srcDt im.srcBe im.srcScaled inst ∧ g.copies inst = true) :
+    writeTo g fs im q = writeTo .base fs im q := by
   rw [writeTo_cur h]
   unfold writeTo
   rw [materialise_ok h]
-  have hne : im.src ≠ q := fun e => hq e.symm
-  by_cases hm : im.mapped = true
-  · simp [hm, deref, readLayout_set_other fs _ _ _ _ hne, h.1, FS.set_set, savedContent, outAff_eq]
+  have hd := deref_materialised h
+  rcases matOf_cases im fs h with ⟨hm, hf⟩ | ⟨inst, hm, hf, _, _⟩
   · simp [hm, deref, FS.set_set, savedContent, outAff_eq]
+  · rw [hm] at hd
+    simp only [deref] at hd
+    cases hc : g.copies inst
+    · -- not copied: the array is read after the target was truncated — fine iff the target is another file
+      have hq : q ≠ im.src := by
+        rcases hg with hg | hg | ⟨i, hi, hgi⟩
+        · rw [hf] at hg; exact absurd hg (by simp)
+        · exact hg
+        · rw [hm] at hi
+          simp only [Mat.ref.injEq, true_and] at hi
+          rw [← hi, hc] at hgi
+          exact absurd hgi (by simp)
+      have hne : im.src ≠ q := fun e => hq e.symm
+      simp [hm, hc, deref, readLayout_set_other fs _ _ _ _ hne, hd, FS.set_set, savedContent, outAff_eq]
+    · simp [hm, hc, deref, hd, FS.set_set, savedContent, outAff_eq]
 
-/-- original logic: saving a memory-mapped image onto its own source reads through the truncated file -/
-theorem writeTo_orig_self {fs : FS} {im : Img} (h : ImgOk fs im) (hm : im.mapped = true) :
-    (writeTo true fs im im.src).1 = .bad := by
+/-- a file-backed array that the guard does not copy, saved onto the file it maps, is read through the truncated
+    file -/
+theorem writeTo_guard_self {fs : FS} {im : Img} (h : ImgOk fs im) (g : Guard) (inst : Bool)
+    (hm : im.matOf = .ref im.src im.srcDt im.srcBe im.srcScaled inst) (hg : g.copies inst = false) :
+    (writeTo g fs im im.src).1 = .bad := by
   unfold writeTo
   rw [materialise_ok h]
-  simp [hm, deref, readLayout_set_truncated]
+  simp [hm, hg, deref, readLayout_set_truncated]
+
+/-- original logic: identical to the current one unless the target is the mapped source itself -/
+theorem writeTo_orig_off_source {fs : FS} {im : Img} (h : ImgOk fs im) {q : Path} (hq : q ≠ im.src) :
+    writeTo .none fs im q = writeTo .base fs im q :=
+  writeTo_guard_eq h .none (Or.inr (Or.inl hq))
+
+/-- original logic: saving a memory-mapped image onto its own source reads through the truncated file -/
+theorem writeTo_orig_self {fs : FS} {im : Img} (h : ImgOk fs im) (hm : im.fileMapped = true) :
+    (writeTo .none fs im im.src).1 = .bad := by
+  rcases matOf_cases im fs h with ⟨_, hf⟩ | ⟨inst, hmat, _, _, _⟩
+  · rw [hm] at hf; exact absurd hf (by simp)
+  · exact writeTo_guard_self h .none inst hmat rfl
 
 /-! ### preservation of the invariant -/
 
@@ -135,16 +219,20 @@ theorem FSwf_set_intact {fs : FS} (h : FSwf fs) (q : Path) (c : Content) : FSwf 
   · rw [FS.set_other fs _ e]; exact h p
 
 theorem ImgOk_after_save {fs : FS} {im : Img} (h : ImgOk fs im) {q : Path} (hk : layoutKept im q = true)
-    (im' : Img) (hsrc : im'.src = im.src) (hdt : im'.srcDt = im.srcDt) (hbe : im'.srcBe = im.srcBe)
-    (hsc : im'.srcScaled = im.srcScaled) (hd : im'.data = im.data) (hc : im'.cache = im.cache) :
+    (im' : Img) (harr : im'.arr = im.arr) (hsrc : im'.src = im.src) (hdt : im'.srcDt = im.srcDt)
+    (hbe : im'.srcBe = im.srcBe) (hsc : im'.srcScaled = im.srcScaled) (hd : im'.data = im.data)
+    (hc : im'.cache = im.cache) :
     ImgOk (fs.set q (some (.intact (savedContent im q)))) im' := by
-  refine ⟨?_, ?_⟩
-  · rw [hsrc, hdt, hbe, hsc, hd]
+  have hback : im'.backed = im.backed := by simp [Img.backed, harr]
+  refine ⟨?_, ?_, ?_, ?_⟩
+  · intro hb
+    rw [hback] at hb
+    rw [hsrc, hdt, hbe, hsc, hd]
     by_cases e : im.src = q
     · -- self-save: the guard says the layout written is the layout the proxy expects
       have hk' : ((outHeader im q).1 == im.srcDt && (outHeader im q).2.2.1 == im.srcBe &&
           outScaled im q == im.srcScaled) = true := by
-        simp only [layoutKept] at hk
+        simp only [layoutKept, hb, Bool.not_true, Bool.false_or] at hk
         cases hq : (q != im.src)
         · simpa [hq] using hk
         · exfalso; simp at hq; exact hq e.symm
@@ -152,10 +240,17 @@ theorem ImgOk_after_save {fs : FS} {im : Img} (h : ImgOk fs im) {q : Path} (hk :
       have := readLayout_set_intact fs q (savedContent im q)
       rw [e]
       simpa [savedContent, hk'.1.1, hk'.1.2, hk'.2] using this
-    · rw [readLayout_set_other fs _ _ _ _ e]; exact h.1
-  · intro d w hd'; rw [hc] at hd'; rw [hd]; exact h.2 d w hd'
+    · rw [readLayout_set_other fs _ _ _ _ e]; exact h.1 hb
+  · intro d fl hd'; rw [harr] at hd'; rw [hd]; exact h.2.1 d fl hd'
+  · intro d w hd'; rw [hc] at hd'; rw [hd]; exact h.2.2.1 d w hd'
+  · intro w hw; rw [hc] at hw; rw [hback]; exact h.2.2.2 w hw
 
-/-- a fresh conversion through the proxy (`np.asanyarray(dataobj, dtype)`) -/
+/-- changing only the cache of a usable image to one that is consistent keeps it usable -/
+theorem ImgOk_cache {fs : FS} {im : Img} (h : ImgOk fs im) (ca : Cache) (h1 : ∀ d w, ca = .owned d w → d = im.data)
+    (h2 : ∀ w, ca = .alias w → im.backed = true) : ImgOk fs { im with cache := ca } :=
+  ⟨h.1, h.2.1, h1, h2⟩
+
+/-- a fresh conversion through the data object (`np.asanyarray(dataobj, dtype)`) -/
 theorem getFdata_fresh {fs : FS} {im : Img} (h : ImgOk fs im) (w : Bool) :
     ∃ ca, (match materialise fs im with
       | none => none
@@ -163,19 +258,22 @@ theorem getFdata_fresh {fs : FS} {im : Img} (h : ImgOk fs im) (w : Bool) :
         match deref fs m with
         | none => none
         | some d =>
-          let aliasing := (match m with | .ref _ _ _ _ => true | .copy _ => false) && !im.srcBe &&
+          let aliasing := (match m with | .ref _ _ _ _ _ => true | .copy _ => false) && !im.srcBe &&
                             im.srcDt == (if w then DT.f32 else DT.f64)
           some (d, { im with cache := if aliasing then .alias w else .owned d w })) =
-        some (im.data, { im with cache := ca }) ∧ ImgOk fs { im with cache := ca } := by
+        some (im.data, { im with cache := ca }) ∧ ImgOk fs { im with cache := ca } ∧
+        (∀ w', ca = .alias w' → w' = w ∧ im.fileMapped = true) := by
   simp only [materialise_ok h, deref_materialised h]
   have own : ImgOk fs { im with cache := .owned im.data w } :=
-    ⟨h.1, fun d' w' hd' => by simp at hd'; exact hd'.1.symm⟩
-  have ali : ImgOk fs { im with cache := .alias w } := ⟨h.1, fun d' w' hd' => by simp at hd'⟩
-  generalize hb : ((match (if im.mapped = true then Mat.ref im.src im.srcDt im.srcBe im.srcScaled else Mat.copy im.data) with
-      | .ref _ _ _ _ => true | .copy _ => false) && !im.srcBe && im.srcDt == (if w then DT.f32 else DT.f64)) = b
-  cases b
-  · exact ⟨.owned im.data w, by simp, own⟩
-  · exact ⟨.alias w, by simp, ali⟩
+    ImgOk_cache h _ (fun d' w' hd' => by simp at hd'; exact hd'.1.symm) (fun w' hw' => by simp at hw')
+  rcases matOf_cases im fs h with ⟨hm, _⟩ | ⟨inst, hm, hf, hb, _⟩
+  · exact ⟨.owned im.data w, by simp [hm], own, fun w' hw' => by simp at hw'⟩
+  · have ali : ImgOk fs { im with cache := .alias w } :=
+      ImgOk_cache h _ (fun d' w' hd' => by simp at hd') (fun _ _ => hb)
+    generalize hbb : (!im.srcBe && im.srcDt == (if w then DT.f32 else DT.f64)) = b
+    cases b
+    · exact ⟨.owned im.data w, by simp [hm, hbb], own, fun w' hw' => by simp at hw'⟩
+    · exact ⟨.alias w, by simp [hm, hbb], ali, fun w' hw' => by simp at hw'; exact ⟨hw'.symm, hf⟩⟩
 
 theorem getFdata_ok {fs : FS} {im : Img} (h : ImgOk fs im) (w : Bool) :
     ∃ ca, getFdata fs im w = some (im.data, { im with cache := ca }) ∧ ImgOk fs { im with cache := ca } := by
@@ -184,22 +282,28 @@ theorem getFdata_ok {fs : FS} {im : Img} (h : ImgOk fs im) (w : Bool) :
   | owned d w' =>
       by_cases hw : w' = w
       · refine ⟨.owned d w', ?_, ?_⟩
-        · have : d = im.data := h.2 d w' hc
+        · have : d = im.data := h.2.2.1 d w' hc
           subst this
           simp only [hw, if_true, Option.some.injEq, Prod.mk.injEq, true_and]
           cases im; simp_all
-        · exact ⟨h.1, fun d' w'' hd' => by simp at hd'; obtain ⟨h1, _⟩ := hd'; subst h1; exact h.2 _ _ hc⟩
+        · exact ImgOk_cache h _ (fun d' w'' hd' => by simp at hd'; obtain ⟨h1, _⟩ := hd'; subst h1; exact h.2.2.1 _ _ hc)
+            (fun w'' hw'' => by simp at hw'')
       · simp only [hw, if_false]
-        exact getFdata_fresh h w
+        obtain ⟨ca, h1, h2, _⟩ := getFdata_fresh h w
+        exact ⟨ca, h1, h2⟩
   | alias w' =>
+      have hb : im.backed = true := h.2.2.2 w' hc
       by_cases hw : w' = w
       · refine ⟨.alias w', ?_, ?_⟩
-        · simp only [hw, if_true, h.1, Option.map_some, Option.some.injEq, Prod.mk.injEq, true_and]
+        · simp only [hw, if_true, h.1 hb, Option.map_some, Option.some.injEq, Prod.mk.injEq, true_and]
           cases im; simp_all
-        · exact ⟨h.1, fun d' w'' hd' => by simp at hd'⟩
+        · exact ImgOk_cache h _ (fun d' w'' hd' => by simp at hd') (fun _ _ => hb)
       · simp only [hw, if_false]
-        exact getFdata_fresh h w
-  | none => exact getFdata_fresh h w
+        obtain ⟨ca, h1, h2, _⟩ := getFdata_fresh h w
+        exact ⟨ca, h1, h2⟩
+  | none =>
+      obtain ⟨ca, h1, h2, _⟩ := getFdata_fresh h w
+      exact ⟨ca, h1, h2⟩
 
 theorem load_ok {fs : FS} {p : Path} {mm : Bool} {im : Img} (h : load fs p mm = some im) : ImgOk fs im := by
   unfold load at h
@@ -207,8 +311,87 @@ theorem load_ok {fs : FS} {p : Path} {mm : Bool} {im : Img} (h : load fs p mm = 
   · rename_i c hc
     simp only [Option.some.injEq] at h
     subst h
-    exact ⟨by simp [readLayout, hc], fun d w hd => by simp at hd⟩
+    exact ⟨fun _ => by simp [readLayout, hc], fun d fl hd => by simp at hd, fun d w hd => by simp at hd,
+      fun w hw => by simp at hw⟩
   · simp at h
+
+/-! ### the re-wrap op -/
+
+theorem rewrapped_ok {fs : FS} {im : Img} (h : ImgOk fs im) (a : Arr)
+    (h1 : ∀ d fl, a = .owned d fl → d = im.data) (h2 : a.backed = true → im.backed = true) :
+    ImgOk fs (rewrapped im a) := by
+  refine ⟨?_, h1, fun d w hd => ?_, fun w hw => ?_⟩
+  · intro hb
+    exact h.1 (h2 hb)
+  · exact absurd hd (by simp [rewrapped])
+  · exact absurd hw (by simp [rewrapped])
+
+/-- re-wrapping a usable image never fails and yields a usable image with the same data, affine, header dtype,
+    tag, class and source -/
+theorem wrapArr_ok {fs : FS} {im : Img} (h : ImgOk fs im) (k : Wrap) :
+    ∃ a, wrapArr fs im k = some (rewrapped im a) ∧ ImgOk fs (rewrapped im a) := by
+  have hback_of_mapped : im.fileMapped = true → im.backed = true := by
+    unfold Img.fileMapped Img.backed Arr.backed; cases im.arr <;> simp
+  have generic : ∀ k' : Wrap, k' ≠ .proxy → k' ≠ .fdata →
+      ∃ a, (match materialise fs im with
+        | none => none
+        | some (.copy d) => some (rewrapped im (.owned d im.arrFloat))
+        | some (.ref p dt be sc inst) =>
+            if k' = .copy then (readLayout fs p dt be sc).map (fun d => rewrapped im (.owned d im.arrFloat))
+            else some (rewrapped im (.view (inst && k' == .mapInst)))) = some (rewrapped im a) ∧
+        ImgOk fs (rewrapped im a) := by
+    intro k' _ _
+    rw [materialise_ok h]
+    have hd := deref_materialised h
+    rcases matOf_cases im fs h with ⟨hm, _⟩ | ⟨inst, hm, hf, hb, _⟩
+    · refine ⟨.owned im.data im.arrFloat, by simp [hm], rewrapped_ok h _ (fun d fl e => by simp at e; exact e.1.symm) ?_⟩
+      intro e; simp [Arr.backed] at e
+    · rw [hm] at hd
+      simp only [deref] at hd
+      by_cases hk : k' = .copy
+      · refine ⟨.owned im.data im.arrFloat, by simp [hm, hk, hd],
+          rewrapped_ok h _ (fun d fl e => by simp at e; exact e.1.symm) ?_⟩
+        intro e; simp [Arr.backed] at e
+      · exact ⟨.view (inst && k' == .mapInst), by simp [hm, hk],
+          rewrapped_ok h _ (fun d fl e => by simp at e) (fun _ => hb)⟩
+  cases k with
+  | proxy =>
+      exact ⟨im.arr, rfl, rewrapped_ok h _ (fun d fl e => h.2.1 d fl e) (fun e => e)⟩
+  | fdata =>
+      unfold wrapArr
+      obtain ⟨ca, hg, hok', _⟩ : ∃ ca, getFdata fs im false = some (im.data, { im with cache := ca }) ∧
+          ImgOk fs { im with cache := ca } ∧ True := by
+        obtain ⟨ca, h1, h2⟩ := getFdata_ok h false
+        exact ⟨ca, h1, h2, trivial⟩
+      rw [hg]
+      simp only
+      cases hca : ca with
+      | alias w =>
+          cases w
+          · exact ⟨.view true, rfl, rewrapped_ok h _ (fun d fl e => by simp at e)
+              (fun _ => by have := hok'.2.2.2 false (by simp [hca]); simpa [Img.backed] using this)⟩
+          · exact ⟨.owned im.data true, rfl, rewrapped_ok h _ (fun d fl e => by simp at e; exact e.1.symm)
+              (fun e => by simp [Arr.backed] at e)⟩
+      | owned d w =>
+          exact ⟨.owned im.data true, rfl, rewrapped_ok h _ (fun d fl e => by simp at e; exact e.1.symm)
+            (fun e => by simp [Arr.backed] at e)⟩
+      | none =>
+          exact ⟨.owned im.data true, rfl, rewrapped_ok h _ (fun d fl e => by simp at e; exact e.1.symm)
+            (fun e => by simp [Arr.backed] at e)⟩
+  | plainView => exact generic .plainView (by simp) (by simp)
+  | mapInst => exact generic .mapInst (by simp) (by simp)
+  | copy => exact generic .copy (by simp) (by simp)
+
+theorem wrapImg_of_wrapArr {fs : FS} {im im' : Img} {k : Wrap} (h1 : wrapArr fs im k = some im') (h2 : ImgOk fs im') :
+    wrapImg fs im k = some im' := by
+  unfold wrapImg
+  rw [h1]
+  simp only [materialise_deref h2]
+
+theorem wrapImg_ok {fs : FS} {im : Img} (h : ImgOk fs im) (k : Wrap) :
+    ∃ a, wrapImg fs im k = some (rewrapped im a) ∧ ImgOk fs (rewrapped im a) := by
+  obtain ⟨a, h1, h2⟩ := wrapArr_ok h k
+  exact ⟨a, wrapImg_of_wrapArr h1 h2, h2⟩
 
 /-! ### one step of a history -/
 
@@ -239,15 +422,15 @@ def StepSpec (s : St) (op : Op) (r : Out × St) : Prop :=
    | _, _ => r.2.fs = s.fs)
 
 theorem save_cur {fs : FS} {im : Img} (h : ImgOk fs im) (q : Path) :
-    save false fs im q = (.saved (savedContent im q), fs.set q (some (.intact (savedContent im q))),
+    save .base fs im q = (.saved (savedContent im q), fs.set q (some (.intact (savedContent im q))),
       if outCls im.cls q.ext = im.cls then { im with fname := some q, xf := outXF im q } else im) := by
   unfold save
   rw [writeTo_cur h]
 
 theorem step_load_aux (fs : FS) (img : Option Img) (p : Path) (mm : Bool) (hfs : FSwf fs)
     (himg : ∀ im, img = some im → ImgOk fs im) :
-    StepSpec ⟨fs, img⟩ (.load p mm) (step false ⟨fs, img⟩ (.load p mm)) ∧
-      WF (step false ⟨fs, img⟩ (.load p mm)).2 := by
+    StepSpec ⟨fs, img⟩ (.load p mm) (step .base ⟨fs, img⟩ (.load p mm)) ∧
+      WF (step .base ⟨fs, img⟩ (.load p mm)).2 := by
   simp only [step]
   cases hl : load fs p mm with
   | none => exact ⟨⟨by simp, by cases img <;> rfl⟩, hfs, himg⟩
@@ -259,7 +442,7 @@ theorem step_load_aux (fs : FS) (img : Option Img) (p : Path) (mm : Bool) (hfs :
       exact load_ok hl
 
 theorem step_safe_aux (s : St) (op : Op) (hw : WF s) (ha : allowed s op = true) :
-    StepSpec s op (step false s op) ∧ WF (step false s op).2 := by
+    StepSpec s op (step .base s op) ∧ WF (step .base s op).2 := by
   obtain ⟨fs, img⟩ := s
   obtain ⟨hfs, himg⟩ := hw
   simp only at hfs himg
@@ -275,6 +458,7 @@ theorem step_safe_aux (s : St) (op : Op) (hw : WF s) (ha : allowed s op = true) 
       | setDt dt => exact ⟨⟨by simp [step, withImg], rfl⟩, hfs, himg⟩
       | save q => exact ⟨⟨by simp [step, withImg], rfl⟩, hfs, himg⟩
       | toBytes => exact ⟨⟨by simp [step, withImg], rfl⟩, hfs, himg⟩
+      | wrap k => exact ⟨⟨by simp [step, withImg], rfl⟩, hfs, himg⟩
   | some im =>
       have hok : ImgOk fs im := himg im rfl
       have wf1 : ∀ im1 : Img, ImgOk fs im1 → WF ⟨fs, some im1⟩ := fun im1 h1 =>
@@ -287,7 +471,7 @@ theorem step_safe_aux (s : St) (op : Op) (hw : WF s) (ha : allowed s op = true) 
           exact ⟨⟨by simp, rfl⟩, wf1 _ hok'⟩
       | uncache =>
           simp only [step, withImg]
-          exact ⟨⟨by simp, rfl⟩, wf1 _ ⟨hok.1, fun d w hd => by simp at hd⟩⟩
+          exact ⟨⟨by simp, rfl⟩, wf1 _ (ImgOk_cache hok _ (fun d w hd => by simp at hd) (fun w hw => by simp at hw))⟩
       | edit k =>
           simp only [step, withImg]
           exact ⟨⟨by simp, rfl⟩, wf1 _ hok⟩
@@ -314,6 +498,10 @@ theorem step_safe_aux (s : St) (op : Op) (hw : WF s) (ha : allowed s op = true) 
             exact ⟨⟨by simp, rfl⟩, wf1 _ hok⟩
           · simp only [Bool.true_eq_false, if_false, materialise_deref hok]
             exact ⟨⟨by simp, rfl⟩, wf1 _ hok⟩
+      | wrap k =>
+          obtain ⟨a, hwr, hok'⟩ := wrapImg_ok hok k
+          simp only [step, withImg, hwr]
+          exact ⟨⟨by simp, rfl⟩, wf1 _ hok'⟩
       | save q =>
           have hk : layoutKept im q = true := by simpa [allowed] using ha
           simp only [step, withImg, save_cur hok]
@@ -327,22 +515,22 @@ theorem step_safe_aux (s : St) (op : Op) (hw : WF s) (ha : allowed s op = true) 
             subst h'
             by_cases hc : outCls im.cls q.ext = im.cls
             · simp only [hc, if_true]
-              exact ImgOk_after_save hok hk _ rfl rfl rfl rfl rfl rfl
+              exact ImgOk_after_save hok hk _ rfl rfl rfl rfl rfl rfl rfl
             · simp only [hc, if_false]
-              exact ImgOk_after_save hok hk _ rfl rfl rfl rfl rfl rfl
+              exact ImgOk_after_save hok hk _ rfl rfl rfl rfl rfl rfl rfl
 
 /-! ### whole histories -/
 
 /-- every op of the history is allowed in the state it is applied to (decidable, executable) -/
 def allowedRun : St → List Op → Bool
   | _, [] => true
-  | s, op :: rest => allowed s op && allowedRun (step false s op).2 rest
+  | s, op :: rest => allowed s op && allowedRun (step .base s op).2 rest
 
 /-- the property along a history: every step meets its spec, the image is usable after every step (and at the
     end) -/
 def Safe : St → List Op → Prop
   | s, [] => Usable s
-  | s, op :: rest => StepSpec s op (step false s op) ∧ Usable (step false s op).2 ∧ Safe (step false s op).2 rest
+  | s, op :: rest => StepSpec s op (step .base s op) ∧ Usable (step .base s op).2 ∧ Safe (step .base s op).2 rest
 
 theorem safe_of_WF : ∀ (ops : List Op) (s : St), WF s → allowedRun s ops = true → Safe s ops
   | [], s, hw, _ => usable_of_WF hw
@@ -352,18 +540,18 @@ theorem safe_of_WF : ∀ (ops : List Op) (s : St), WF s → allowedRun s ops = t
       exact ⟨hspec, usable_of_WF hw', safe_of_WF rest _ hw' ha.2⟩
 
 theorem run_ok : ∀ (ops : List Op) (s : St), WF s → allowedRun s ops = true →
-    (∀ o ∈ (run false s ops).1, o ≠ .bad) ∧ (run false s ops).1.length = ops.length ∧
-      ∃ f, (run false s ops).2 = some f ∧ WF f
+    (∀ o ∈ (run .base s ops).1, o ≠ .bad) ∧ (run .base s ops).1.length = ops.length ∧
+      ∃ f, (run .base s ops).2 = some f ∧ WF f
   | [], s, hw, _ => ⟨by simp [run], by simp [run], s, rfl, hw⟩
   | op :: rest, s, hw, ha => by
       simp only [allowedRun, Bool.and_eq_true] at ha
       obtain ⟨hspec, hw'⟩ := step_safe_aux s op hw ha.1
       obtain ⟨h1, h2, f, h3, h4⟩ := run_ok rest _ hw' ha.2
-      have hne : (step false s op).1 ≠ .bad := hspec.1
-      have hrun : run false s (op :: rest) =
-          ((step false s op).1 :: (run false (step false s op).2 rest).1, (run false (step false s op).2 rest).2) := by
+      have hne : (step .base s op).1 ≠ .bad := hspec.1
+      have hrun : run .base s (op :: rest) =
+          ((step .base s op).1 :: (run .base (step .base s op).2 rest).1, (run .base (step .base s op).2 rest).2) := by
         rw [run]
-        generalize step false s op = r at hne
+        generalize step .base s op = r at hne
         obtain ⟨o, s'⟩ := r
         cases o <;> first | rfl | exact absurd rfl hne
       rw [hrun]
